@@ -221,7 +221,7 @@ def random_config(rng):
         extra += [[len, 1], [len, str], [lambda: 0]]
     elif t == 'Color':
         cfg['allow_named'] = rng.random() < 0.5
-        extra += ['#AABBCC', '#aabbc', 'aabbcc', '#ggg', 'notacolor', 'blue']
+        extra += ['#AABBCC', '#aabbc', 'aabbcc', '#ggg', 'notacolor', 'blue', 'ff0000\n', '#abc\n', ' #aabbcc', 'blue\n']
     elif t in ('Selector', 'ListSelector'):
         objs = rng.sample([1, 2, 'a', 'b', 2.5, (1, 2), None, True, 0], rng.randint(1, 5))
         cfg['objects'] = dict((f'n{i}', o) for i, o in enumerate(objs)) if rng.random() < 0.4 else list(objs)
